@@ -116,6 +116,7 @@ MALFORMED = {
     "empty character constant": R.lit("''"),
     "unterminated character constant (end of input)": R.seq(R.lit("'"), R.star(R.ncls("'\\\n"))),
     "unterminated character constant (end of line)": R.seq(R.lit("'"), R.star(R.ncls("'\\\n")), R.lit("\n")),
+    "NONFINAL-NL unterminated character constant with more text on the following lines": R.seq(R.lit("'"), R.star(R.ncls("'\\\n")), R.lit("\n"), R.plus(R.setof(R.cs_neg(())))),
     "character constant with more than four characters": R.seq(R.lit("'"), R.rep(5, None, R.ncls("'\\\n")), R.lit("'")),
     "character constant with an invalid escape": R.seq(R.lit("'\\"), R.ncls("a-zA-Z._~^!=&\\'\"?0-9\n-"), R.star(R.ncls("'\n")), R.lit("'")),
     "string literal with an invalid escape": R.seq(R.lit('"'), R.star(S_ORD), R.lit("\\"), R.ncls("a-zA-Z._~^!=&\\'\"?0-9\n-"), R.star(S_ORD), R.lit('"')),
@@ -284,9 +285,12 @@ class TokAutomaton:
 
     CAP = 4
 
-    def __init__(self, model: LexModel):
+    def __init__(self, model: LexModel, eos_nl=True):
+        """eos_nl: how a `$` anchor is read when the next character is a newline - True: it matches (exact when that newline is the last character of
+        the text), False: it does not (exact when more text follows the newline).  Python's `$` (no MULTILINE) matches at the very end and before a
+        FINAL newline only; one character of look-ahead cannot tell the two situations apart, so each obligation uses the reading that is exact for it."""
         self.m = model
-        D, N = model.prio(), model.subset()
+        D, N = model.prio(eos_nl), model.subset()
         self.D, self.N = D, N
         alpha = model.alpha
         self.n_syms = alpha.n
